@@ -20,11 +20,13 @@ UNICODE_IDENTS = ['é', 'ñandú', 'λ', 'Привет', '变量', 'aé', 'ª', 
                   'x\u0301y', '$\u00e9', '_\\u200c']
 NUMBERS = ['0', '1', '2', '7', '10', '42', '100', '255', '1.5', '0.5', '.5', '5.', '1e3', '1E3', '1e+3', '1e-3',
            '1.5e10', '.5e1', '5.e1', '0x0', '0x1F', '0XaB', '0xdeadBEEF', '3.14159', '9007199254740993',
-           '0.0', '0e0', '123456789012345678901234567890']
+           '0.0', '0e0', '123456789012345678901234567890',
+           # Annex B legacy octal literals: accepted by the parser under test, no verdict on acceptance
+           '010', '0777', '00']
 STRINGS = ['""', "''", '"a"', "'a'", '"hello world"', "'it\\'s'", '"say \\"hi\\""', '"a\\nb"', '"tab\\t"',
            "'\\\\'", '"\\x41"', '"\\u0041"', '"\\0"', "'\\r\\n'", '"/*not a comment*/"', "'// nor this'",
            '"\\b\\f\\v"', '"é"', "'变'", '"a\'b"', "'a\"b'", '"\\/"', "'\\q'", '"use strict"', "' '", '";"',
-           '"}"', "'{'", '"</script>"']
+           '"}"', "'{'", '"</script>"', '"\\101"', "'\\7\\08'", '"\\377\\400"']
 STRINGS_CONT = ['"a\\\nb"', "'a\\\r\nb'", '"x\\\ry"', '"p\\\u2028q"', "'\\\n'",
                 # several line terminators inside one token
                 '"a\\\nb\\\nc"', "'\\\n\\\r\n\\\rx'", '"l1\\\u2029l2\\\nl3\\\r\nl4"']
